@@ -33,8 +33,34 @@ def rule_functions(ctx):
         k = const_str(b.expr(t['args'][1]))
         v = strip(b.expr(t['args'][2]))
         if k is None or v[0] != 'fnitem':
-            raise AnchorLost('RULE_FUNCTIONS: insert with non-constant key or non-function value at %s' % t['loc'])
+            out = {}              # inserted in a loop over a constant table: read the table below
+            break
         out[k] = v[1]
+    if not out:
+        # the map is collected from a constant table of (name, function) rows
+        for cb in ctx.facts.bodies.values():
+            if cb.kind not in ('const', 'static') or cb.loops():
+                continue
+            r = strip(cb.ret_expr())
+            if r[0] != 'aggr' or r[1] != 'array' or not r[2]:
+                continue
+            rows = []
+            for el in r[2]:
+                e = strip(el)
+                if e[0] == 'aggr' and e[1] == 'tuple' and len(e[2]) == 2 and const_str(e[2][0]) is not None:
+                    f = e[2][1]
+                    for _ in range(6):
+                        if f[0] in ('ref', 'deref'):
+                            f = f[1]
+                        elif f[0] == 'cast':
+                            f = f[3]
+                        else:
+                            break
+                    if f[0] == 'fnitem' and 'rules::' in str(f[1]):
+                        rows.append((const_str(e[2][0]), f[1]))
+            if len(rows) == len(r[2]) and len(rows) >= 10:
+                out = dict(rows)          # the one constant table of (rule name, rule function) rows
+                break
     if not out:
         raise AnchorLost('RULE_FUNCTIONS initialiser has no insert calls')
     return out
